@@ -11,6 +11,7 @@ mod pxops;
 mod rawpeer;
 mod recorder;
 mod report;
+mod sched;
 mod spec;
 mod sysshim;
 mod wirereq;
@@ -43,6 +44,7 @@ fn run_check(id: &str, rep: &mut Report) -> bool {
         "C08" => checks::c08::run(rep),
         "C09" => checks::c09::run(rep),
         "C11" => checks::c11::run(rep),
+        "C12" => checks::c12::run(rep),
         "C13" => checks::c13::run(rep),
         "C14" => checks::c14::run(rep),
         "C17" => checks::c17::run(rep),
@@ -116,6 +118,7 @@ fn main() {
                 "C08" => checks::c08::replay(&v["case"], &mut rep),
                 "C09" => checks::c09::replay(&v["case"], &mut rep),
                 "C11" => checks::c11::replay(&v["case"], &mut rep),
+                "C12" => checks::c12::replay(&v["case"], &mut rep),
                 "C13" => checks::c13::replay(&v["case"], &mut rep),
                 "C14" => checks::c14::replay(&v["case"], &mut rep),
                 "C17" => checks::c17::replay(&v["case"], &mut rep),
